@@ -233,7 +233,6 @@ theorem inv_clear_marked {w : WM} {iss : List Handle} (hi : Inv ⟨w, iss⟩) : 
     live := ⟨hi.live.live_in, hi.live.row_live⟩
     pool := ⟨hi.pool.vals_nodup, hi.pool.insts_nodup, hi.pool.inst_lt, hi.pool.inst_sid⟩
     shared := hi.shared
-    closed := hi.closed
     depsB := hi.depsB
     locsCover := hi.locsCover
     bufLe := hi.bufLe
